@@ -6,7 +6,7 @@ C08 — meaning of the two expression languages (spec side; nothing here is read
 * `evalMath` : the SBML L3v2 reading of a MathML tree, as the import pipeline realises it
                (pysbml `mathml2sympy` + sympy's Python printer): piecewise = (value, condition)*
                otherwise, evaluated lazily; minus unary/binary; relational operators n-ary
-               (all adjacent pairs); `quotient` = floor division; `rem` = sign-of-divisor
+               (all adjacent pairs); `xor` n-ary = parity; `quotient` = floor division; `rem` = sign-of-divisor
                remainder; `root`/`log` with a single child = sqrt / log10.
 * Functions without an exact rational value (sqrt, ln, sin, ...) are an uninterpreted
   parameter `I : name → args → Option Rat` shared by both sides; what is proved about them
@@ -252,6 +252,7 @@ def applyStrict (I : Interp) (t : MType) (vs : List Val) : Option Val :=
   | .logicalNot, [_] => match vs with
       | [v] => some (.bool (!v.truthy))
       | _ => none
+  | .logicalXor, _ => some (.bool (vs.foldl (fun acc v => acc != v.truthy) false))   -- n-ary: parity
   | t, xs =>
     match relOp t with
     | some f => if xs.length < 2 then none else some (.bool (relChain f xs))
